@@ -119,6 +119,7 @@ type snapModel struct {
 }
 
 type world struct {
+	extraClientHook func(c *simbe.Client) // applied to a process's client for a second repository (copy's source)
 	forcedFired int // scripted faults (errbefore/errafter/sticky) that fired
 	r     *hx.Rec
 	s     *simrt.Sim
@@ -288,6 +289,9 @@ func (w *world) clientFor(p *simrt.Proc, cfg string, main *simbe.Client) *simbe.
 	}
 	c := st.NewClient(p, w.cfg.Conns, w.cfg.Atomic)
 	c.F = main.F
+	if w.extraClientHook != nil {
+		w.extraClientHook(c)
+	}
 	return c
 }
 
@@ -654,6 +658,9 @@ func compareNode(ctx context.Context, repo *repository.Repository, got *data.Nod
 	}
 	if got.UID != want.UID || got.GID != want.GID {
 		return fmt.Sprintf("%s: owner %d:%d, want %d:%d", path, got.UID, got.GID, want.UID, want.GID)
+	}
+	if got.User != want.User || got.Group != want.Group {
+		return fmt.Sprintf("%s: owner names %q:%q, want %q:%q", path, got.User, got.Group, want.User, want.Group)
 	}
 	if want.Mode&os.ModeDevice != 0 && got.Device != want.Dev {
 		return fmt.Sprintf("%s: device %#x, want %#x", path, got.Device, want.Dev)
